@@ -1,7 +1,7 @@
 """C10 - connection limits are exact and slots are always returned."""
 import random
 
-from harness import corecheck, gen, mc, report
+from harness import corecheck, gen, guide, mc, report
 
 USERS = [
     {"id": "u1", "login": "u1", "pw": "pw1", "max": 1, "perms": [], "home": [], "base": ["A"]},
@@ -70,6 +70,9 @@ def run(tier, seed):
     for srvmax, idle in ((1, 3000), (2, 3000), (3, 0), (0, 3000)) if tier != "quick" else ((1, 3000), (2, 0)):
         cfg = gen.std_cfg(ns=4, users=USERS, srvmax=srvmax, idle=idle)
         corecheck.validate(chk, cfg, gen.STD_TREE, scheds, label="limits:srv%d:idle%d" % (srvmax, idle))
+    gs, steps = guide.behaviours("MC_GuideRes", "MC_GuideRes", 1500 if tier == "quick" else 20000, 60, seed + 13)
+    corecheck.validate(chk, gen.std_cfg(ns=3, users=guide.RES_USERS, srvmax=2, usepool=True, ports=[3001]), guide.RES_TREE, gs, label="tlc-guided")
+    chk.notes["tlc_generated_behaviours"] = len(gs)
     chk.cov["rule"] = ("seeded interleavings of connect / USER (same, other, unknown, over-limit) / PASS right,wrong / QUIT / vanish / "
                        "undecodable line / idle timeout / server.close() over 4 concurrent sessions, plus every prefix of long "
                        "schedules followed by server.close(); server and per-user counters compared with the model at every "
